@@ -48,8 +48,8 @@ RULE = ("exhaustive: every text over {a,B,space,\\n,(,)} up to the tier's length
         "wide chars) with random operator x motion x counts incl. motions that are oracle-only (ge gE g_ | % { } ap ; "
         ", gq ~); a case is non-trivial when some operator changes text, cursor or a register")
 EXHAUSTIVE = True
-EXHAUSTIVE_SCOPE = {"quick": "alphabet {a,B,space,\\n,(,)}, len<=3, all cursors, all modelled motions x d, all operators x rotating motions; raw TextObjects len<=4",
-                    "thorough": "alphabet {a,B,space,\\n,(,)}, len<=4, all cursors, all modelled motions x d, all operators x rotating motions (full product for len<=3); raw TextObjects len<=5"}
+EXHAUSTIVE_SCOPE = {"quick": "alphabet {a,B,space,\\n,(,)}: len<=1 full product operators x motions x counts; len 2 all motions x d, 12 rotating motions per other operator; len 3 all states, rotating subsets; raw TextObjects over {a,space,\\n} len<=4, all in-range offsets x 3 types",
+                    "thorough": "alphabet {a,B,space,\\n,(,)}: len<=2 full product operators x motions x counts, all cursors; len 3 all motions x d, 40 rotating motions per other operator; len 4 all states, rotating subsets (40 motions x d, 6 per other operator); raw TextObjects len<=5"}
 TRUSTED = ["harness/c08.py compares text, cursor, clipboard, named registers and insert-mode after every operator",
            "Ptk/Model/C08.lean is a hand translation of vi.py TextObject/operators and the Document queries they use"]
 ASSUMPTIONS = ["CPython str slicing semantics; `re` on the word patterns == maximal class runs (differentially checked)",
@@ -183,32 +183,43 @@ BASE = base_motions()
 ARGS = [(None, None), (2, None), (None, 2), (2, 2), (3, None), (None, 3)]
 
 
-def state_ops(text, cur, salt, full):
-    """the op list for one state: every motion under d (+counts), every operator on a subset"""
-    ops = []
+def motion_instances():
     inst = []
     for m in BASE:
         inst.append((None, None, m))
         if m[0] in COUNT_SENSITIVE:
             for oa, ma in ARGS[1:]:
                 inst.append((oa, ma, m))
-    for oa, ma, m in inst:
-        ops.append([oa, "d", None, ma] + m)
-    n = len(inst)
-    j = 0
+    return inst
+
+
+INST = motion_instances()
+
+
+def op_variants():
+    out = []
     for name in OPS:
-        regs = [None] if name not in ("d", "c", "y") else [None, "a"]
-        for reg in regs:
-            if name == "d" and reg is None:
-                continue
-            if full:
-                sel = inst
-            else:
-                # rotating subset: 14 instances, different per state and operator
-                sel = [inst[(salt * 7 + j * 13 + i * 11) % n] for i in range(14)]
-            j += 1
-            for oa, ma, m in sel:
-                ops.append([oa, name, reg, ma] + m)
+        for reg in ([None, "a"] if name in ("d", "c", "y") else [None]):
+            if not (name == "d" and reg is None):
+                out.append((name, reg))
+    return out
+
+
+VARIANTS = op_variants()
+
+
+def state_ops(salt, n_d, n_other):
+    """the op list for one state: `d` on n_d motion instances (None = all), every other operator
+    variant on n_other instances (None = all); subsets rotate with `salt`"""
+    ops = []
+    n = len(INST)
+    sel = INST if n_d is None else [INST[(salt * 5 + i * 7) % n] for i in range(n_d)]
+    for oa, ma, m in sel:
+        ops.append([oa, "d", None, ma] + m)
+    for j, (name, reg) in enumerate(VARIANTS):
+        sel = INST if n_other is None else [INST[(salt * 7 + j * 13 + i * 11) % n] for i in range(n_other)]
+        for oa, ma, m in sel:
+            ops.append([oa, name, reg, ma] + m)
     return ops
 
 
@@ -269,18 +280,23 @@ def raw_tos(n, cur):
     return out
 
 
+# per tier: text length -> (number of `d` motion instances, instances per other operator); None = all
+PLAN = {"quick": {0: (None, None), 1: (None, None), 2: (None, 12), 3: (28, 3)},
+        "thorough": {0: (None, None), 1: (None, None), 2: (None, None), 3: (None, 40), 4: (40, 6)}}
+
+
 def cases(tier, rng):
     quick = tier == "quick"
-    maxlen = 3 if quick else 4
-    full_upto = 1 if quick else 3
-    salt = 0
-    for n in range(maxlen + 1):
+    plan = PLAN[tier]
+    salt = rng.randrange(1000)
+    for n in sorted(plan):
+        n_d, n_other = plan[n]
         for tup in itertools.product(ALPHA, repeat=n):
             text = "".join(tup)
             for cur in range(n + 1):
                 salt += 1
                 yield {"k": "e2e", "text": text, "cur": cur, "clip": ["zz", 0],
-                       "ops": state_ops(text, cur, salt + rng.randrange(1000), n <= full_upto)}
+                       "ops": state_ops(salt, n_d, n_other)}
     # direct TextObject calls
     rawlen = 4 if quick else 5
     for n in range(rawlen + 1):
@@ -288,7 +304,7 @@ def cases(tier, rng):
             text = "".join(tup)
             for cur in range(n + 1):
                 yield {"k": "raw", "text": text, "cur": cur, "tos": raw_tos(n, cur)}
-    nrand = 2500 if quick else 60000
+    nrand = 1200 if quick else 40000
     for _ in range(nrand):
         text = rand_text(rng)
         cur = rng.choice([0, len(text), rng.randrange(0, len(text) + 1), rng.randrange(0, len(text) + 1)])
@@ -403,7 +419,7 @@ def norm_count(oa, ma):
     return 1 if c >= 1000000 else c
 
 
-def fails(text, cur, m, count):
+def fails(text, cur, m, count, has_count=False):
     """independent (Vi manual) notion of 'the motion fails or spans nothing'; None = no opinion"""
     k = m[0]
     ls, le = line_start(text, cur), line_end(text, cur)
@@ -437,6 +453,8 @@ def fails(text, cur, m, count):
     if k == "g_":
         return True if ls == le else None
     if k == "%":
+        if has_count:
+            return None   # N% : jump to a percentage of the file (linewise), never fails
         return True if text[cur:cur + 1] not in tuple("()[]{}<>") or text[cur:cur + 1] == "" else None
     if k in (";", ","):
         return True   # no previous f/F/t/T in a fresh state
@@ -489,15 +507,19 @@ TF = {"g?": lambda s: codecs.encode(s, "rot_13"), "gu": str.lower, "gU": str.upp
       "~": str.swapcase}
 
 
-def removed_spans(text, new, cur):
-    """all (a, b) with new == text[:a] + text[b:], a <= cur <= b"""
+TEXT_OBJECTS = {"ib", "ab", "iq", "aq", "iw", "iW", "aw", "aW", "ap"}
+
+
+def removed_spans(text, new, cur, slack=0):
+    """all (a, b) with new == text[:a] + text[b:], a <= cur + slack, cur <= b
+    (slack = 1 for text objects: `i(` with the cursor on the bracket starts behind it)"""
     k = len(text) - len(new)
     out = []
     if k < 0:
         return out
     # (also: an exclusive motion that ends in column 0 stops at the end of the previous line,
     #  so a backward span may be separated from the cursor by exactly that newline)
-    for a in range(max(0, cur - k - 1), min(cur, len(new)) + 1):
+    for a in range(max(0, cur - k - 1), min(cur + slack, len(new)) + 1):
         b = a + k
         if text[:a] + text[b:] == new and (b >= cur or (b == cur - 1 and text[b] == "\n" and k > 0)):
             out.append((a, b))
@@ -541,7 +563,7 @@ def check_op(case, op, r, dref):
     if not (0 <= nc <= len(nt)):
         bad(site, "cursor out of range", "cursor outside 0..len(text)")
     count = norm_count(oa, ma)
-    lw = m[0] in LINEWISE
+    lw = m[0] in LINEWISE or (m[0] == "%" and (oa is not None or ma is not None))
     clip_before = (clip[0], clip[1])
     new_clip = (r["clip"][0], r["clip"][1])
     stored = new_clip if reg is None else r["regs"].get(reg)
@@ -551,7 +573,7 @@ def check_op(case, op, r, dref):
     def cur_ok(expected):
         return nc == expected or (not r["insert"] and nc == vi_fix(nt, expected))
 
-    f = fails(text, cur, m, count)
+    f = fails(text, cur, m, count, oa is not None or ma is not None)
     if f is True:
         if nt != text or not cur_ok(cur) or not untouched:
             bad(site, "failing motion " + m[0], "the motion fails / spans nothing but the operator changed something")
@@ -567,7 +589,7 @@ def check_op(case, op, r, dref):
     if name in ("d", "c"):
         if not others_ok:
             bad(site, "other register touched", "delete wrote to a register it was not asked to")
-        spans = removed_spans(text, nt, cur)
+        spans = removed_spans(text, nt, cur, 1 if m[0] in TEXT_OBJECTS else 0)
         if not spans:
             bad(site, "not one contiguous span at the cursor", "new text is not text[:a]+text[b:] with a<=cursor<=b")
             return v
@@ -576,7 +598,8 @@ def check_op(case, op, r, dref):
         for a, b in spans:
             rem = text[a:b]
             if a == b:
-                if untouched and cur_ok(cur):
+                # (nothing removed; a linewise operator on an empty last line remembers that line)
+                if cur_ok(cur) and (untouched or (lw and others_ok and stored == ("", 1))):
                     ok = True
                 continue
             if not cur_ok(a):
@@ -610,7 +633,7 @@ def check_op(case, op, r, dref):
     d = dref()
     if d is None or d["err"] or d["pending"]:
         return v
-    spans = removed_spans(text, d["text"], cur)
+    spans = removed_spans(text, d["text"], cur, 1 if m[0] in TEXT_OBJECTS else 0)
     if not spans:
         return v  # d itself is off; reported at the d run
     if not untouched:
@@ -618,10 +641,11 @@ def check_op(case, op, r, dref):
     if spans[0][0] == spans[0][1]:
         if lw and name in (">", "<", "gq"):
             # a linewise span that holds no character is the (empty) line of the cursor
-            spans = [(line_start(text, cur), line_start(text, cur))]
-            p = frame_problem(name, text, nt, spans[0][0], spans[0][1], False, count)
-            if p is not None:
-                bad(site, p[0], p[1])
+            row = row_of(text, cur)
+            lines, nlines = text.split("\n"), nt.split("\n")
+            if name != "gq" and (len(lines) != len(nlines) or
+                                 any(l0 != l1 for i, (l0, l1) in enumerate(zip(lines, nlines)) if i != row)):
+                bad(site, "outside span changed", f"a line other than the cursor line {row} changed")
             return v
         if nt != text or not cur_ok(cur):
             bad(site, "empty span", "the motion spans nothing but the operator changed text or cursor")
@@ -645,6 +669,8 @@ def check_move(case, op, r, mvr):
     if op[4] == "%" and op[3] is not None:
         return []   # N% is a linewise jump to a percentage of the file
     text, cur = case["text"], case["cur"]
+    if vi_fix(text, cur) != cur:
+        return []   # not a navigation-mode cursor: the key processor moves it after the motion / count key
     p = mvr["cur"]
     spans = removed_spans(text, r["text"], cur)
     ok = False
@@ -654,7 +680,7 @@ def check_move(case, op, r, mvr):
         elif a >= cur:
             ok = ok or abs(b - p) <= 1
         else:
-            ok = ok or (abs(a - p) <= 1 and b <= cur)
+            ok = ok or (abs(a - p) <= 1 and b <= cur + 1)   # (backward inclusive: + the cursor char)
     if spans and not ok:
         return [{"signature": "delete_or_change_operator | span differs from the motion typed alone",
                  "msg": f"text={text!r} cur={cur} keys={op_keys(op)!r} -> text={r['text']!r}; the motion alone moves the cursor to {p}"}]
